@@ -37,8 +37,14 @@ TrBuild == /\ Ev.op = "build" /\ Ev.out = "ok" /\ Build
 Grid(o)      == [i \in 1..Len(o) |-> [name |-> o[i][1], vals |-> o[i][2]]]
 Param(c, n, dflt) == IF \E i \in 1..Len(c) : c[i][1] = n THEN (CHOOSE p \in Range(c) : p[1] = n)[2] ELSE dflt
 SigOf(c)     == 1000 * Param(c, "stop", 3) + 100 * Param(c, "cstart", 0) + 10 * Param(c, "cfreq", 1) + Param(c, "d", 0)
+\* a fixture with a burn-in phase replaces its collector "c1" at timestep `burn` (if it gets that far) by a fresh one that
+\* records from burn + 1 on: "that execution's own collector records" are those of the collector registered under the name
+\* when the run stops
+C1Start(c, lim) == LET b == Param(c, "burn", -1)
+                       last == (IF Param(c, "stop", 3) < lim THEN Param(c, "stop", 3) ELSE lim - 1)     \* last timestep in which systems run
+                   IN IF b >= 0 /\ b <= last THEN b + 1 ELSE Param(c, "cstart", 0)
 RunOf(c, lim, two) ==
-    LET r1 == RunRecords(SigOf(c), Param(c, "stop", 3), Param(c, "cstart", 0), Param(c, "cfreq", 1), lim)
+    LET r1 == RunRecords(SigOf(c), Param(c, "stop", 3), C1Start(c, lim), Param(c, "cfreq", 1), lim)
         r2 == RunRecords(SigOf(c), Param(c, "stop", 3), Param(c, "cstart", 0), Param(c, "cfreq", 1) + 1, lim)
     IN IF two THEN << <<"c1", r1>>, <<"c2", r2>> >> ELSE << <<"c1", r1>> >>
 RepMajor(P, reps)   == [k \in 1..(Len(P) * reps) |-> P[((k - 1) % Len(P)) + 1]]
